@@ -13,6 +13,7 @@ package gossip
 
 //@ contract (*clusterState).ApplyDigest
 //@   serves C11 C02 C03 C13 C14 C20 C04
+//@   ghost-set gDigestApplied = true
 //@   modifies entries(s.nodes)
 //@   ensures[known-kept] forall id string :: old(id in s.nodes) ==> id in s.nodes && s.nodes[id] == old(s.nodes[id])
 //@   ensures[left-not-learned] forall id string :: id in s.nodes && !old(id in s.nodes) ==> (exists j int :: 0 <= j && j < len(digest) && digest[j].ID == id && !digest[j].Left && blankNode(s.nodes[id], id, digest[j].Addr))
@@ -71,6 +72,7 @@ package gossip
 
 //@ contract (*clusterState).ApplyDelta
 //@   serves C02 C11 C13 C14 C20 C04
+//@   ghost-set gDeltaApplied = true
 //@   requires[env-class] forall i int, j int :: 0 <= i && i < len(delta) && 0 <= j && j < len(delta[i].Entries) ==> delta[i].Entries[j].Internal == isInternalKey(delta[i].Entries[j].Key)
 //@   ensures[known-kept] forall id string :: old(id in s.nodes) ==> id in s.nodes && s.nodes[id] == old(s.nodes[id])
 //@   ensures[monotone] forall id string :: old(id in s.nodes) ==> s.nodes[id].Version >= old(s.nodes[id].Version)
